@@ -89,6 +89,12 @@ func main() {
 		os.WriteFile(filepath.Join(dir, "meta.json"), mb, 0644)
 	case "run":
 		runCases(os.Args[2], os.Args[3])
+	case "hist-child":
+		histChild(os.Args[2], os.Args[3])
+	case "gen-selftest":
+		seed, _ := strconv.ParseInt(os.Args[2], 10, 64)
+		n, _ := strconv.Atoi(os.Args[3])
+		os.Exit(min1(genSelfTest(seed, n)))
 	default:
 		die("unknown command %s", os.Args[1])
 	}
